@@ -5,7 +5,7 @@ CONSTANTS
   CoreLen = 3
   TightLen = 4
   QLen = 4
-  SLen = 4
+  SLen = 3
   AlphaCap = 4
   LenCap = 3
-  Budget = 100
+  Budget = 50
